@@ -1,6 +1,6 @@
 """C17 — summary counts, run statistics and the JUnit report all tell the same story."""
 import vlib
-from props import common, disp
+from props import common, mix, disp
 
 THM = "NextestModel.Thm.C17"
 GEN = []
@@ -15,7 +15,7 @@ def parse_stats(s):
     return out
 
 
-def run(seed, tier, replay=None):
+def run_p(seed, tier, replay=None):
     r, items, model = disp.run_disp(seed, tier, 1500, 40000)
     violations = []
     nt = set()
@@ -47,5 +47,9 @@ def run(seed, tier, replay=None):
         "samples": samples, "traces": len(items), "dist": r.dist,
         "violations": violations, "broken": r.broken, "impl_failures": r.impl_failures,
     }
+
+
+def run(seed, tier, replay=None):
+    return mix.merge(run_p(seed, tier, replay), mix.check([mix.mon_junit], seed, tier))
 
 KNOWN_MATCHERS = {}
